@@ -414,6 +414,22 @@ func pickFns(p *Program, key string) []*ssa.Function {
 				for _, ins := range b.Instrs {
 					mc, ok := ins.(*ssa.MakeClosure)
 					if !ok {
+						// an anonymous function without free variables is passed as a plain function value
+						if c, isCall := ins.(ssa.CallInstruction); isCall {
+							n := ""
+							if c.Common().IsInvoke() {
+								n = ifaceMethodName(c.Common())
+							} else if sc := c.Common().StaticCallee(); sc != nil {
+								n = canonName(sc)
+							}
+							if n != "" && patMatches(pat, n) {
+								for _, a := range c.Common().Args {
+									if af, isFn := a.(*ssa.Function); isFn && af.Parent() == parent {
+										out = append(out, af)
+									}
+								}
+							}
+						}
 						continue
 					}
 					refs := append([]ssa.Instruction{}, *mc.Referrers()...)
